@@ -3,6 +3,7 @@ import Driver.Replay
 import Driver.Ring
 import Driver.Loss
 import Driver.Xor
+import Driver.Pipe
 
 def main (args : List String) : IO UInt32 := do
   match args with
@@ -10,4 +11,6 @@ def main (args : List String) : IO UInt32 := do
   | ["ring"] => Driver.runComponent Driver.Ring.comp; return 0
   | ["loss"] => Driver.runComponent Driver.Loss.comp; return 0
   | ["xor"] => Driver.runComponent Driver.Xor.comp; return 0
+  | ["bridge"] => Driver.runComponent Driver.Pipe.bridge; return 0
+  | ["dpipe"] => Driver.runComponent Driver.Pipe.dpipe; return 0
   | _ => IO.eprintln "usage: vdrv <component> [args]"; return 2
